@@ -141,21 +141,11 @@ def r72(ctx, prog):
 
 
 def r73b(ctx, prog):
-    f = prog.fn('token::partial_tokens_to_tokens')
-    if f is None:
-        return
+    from rules import toksem
     try:
-        paths = iteration_paths(prog, f)
-    except (ValueError, Budget) as e:
+        toksem.check_whitespace(ctx, prog, 'R7.3')
+    except (ValueError, tables.TableError) as e:
         ctx.unrecognised('R7.3', 'partial_tokens_to_tokens', 'shape', str(e))
-        return
-    ws = [p for p in paths if p['first'] == 'Whitespace' and p['ret'] is None]
-    from absint import NONE as N
-    good = bool(ws) and all(p['emitted'] == N and p['cutoff'] == 1 + len(p['matched']) and all(v == 'Whitespace' for _, v in p['matched']) for p in ws)
-    ctx.check(good, 'R7.3', 'Whitespace-token', 'whitespace', 'a Whitespace partial token yields no token and consumes only whitespace (%s)' % [(p['cutoff'], fmt(p['emitted']) if p['emitted'] else None) for p in ws], span=f.span)
-    # no other first kind is silently dropped
-    dropped = sorted({p['first'] for p in paths if p['ret'] is None and p['emitted'] == N and p['first'] != 'Whitespace'})
-    ctx.check(not dropped, 'R7.3', 'only-whitespace-dropped', 'dropped', 'only whitespace produces no token (also dropped: %s)' % dropped, span=f.span)
 
 
 def r74(ctx, prog):
